@@ -374,7 +374,7 @@ func streamC49(h *H) {
 			}
 			return []string{"othererr", HexS(res.Err.Error())}
 		}
-		nc := 25 * h.NSh
+		nc := 12 * h.NSh
 		if h.Thorough() {
 			nc = 150
 		}
